@@ -190,9 +190,9 @@ def gen_runopts(rng, backend):
         if backend == "gaussian" and rng.random() < 0.4:
             return dict(cls="MeasureFock", regs=rng.sample(range(n), rng.randint(1, 2)), pars=[])
         return dict(cls="MeasureHomodyne", regs=[rng.randrange(n)], pars=[rng.choice([0.0, 0.25])])
-    nseg = rng.choice([1, 2, 2])
-    segs = [[d(rng.randrange(n)), g(rng.randrange(n))] + [meas() for _ in range(rng.randint(0, 2))] for _ in range(nseg)]
-    bad = rng.random() < 0.3
+    nseg = rng.choice([1, 2, 2, 2, 3])
+    segs = [[d(rng.randrange(n)), g(rng.randrange(n))] + [meas() for _ in range(rng.randint(1, 2))] for _ in range(nseg)]
+    bad = rng.random() < 0.25
     if bad:
         sg = rng.choice(segs)
         if rng.random() < 0.5:
@@ -200,12 +200,12 @@ def gen_runopts(rng, backend):
         else:
             sg += [dict(cls="MeasureHomodyne", regs=[1], pars=[0.0]), dict(cls="Dgate", regs=[0], pars=[dict(m=1, k=1), 0.0])]
     kw = {}
-    if rng.random() < 0.6:
+    if rng.random() < 0.35:
         kw["shots"] = rng.choice([1, 2, 3])
     if rng.random() < 0.6:
         kw["modes"] = rng.choice([[], [0], rng.sample(range(n), 2), None])
     return dict(backend=backend, n=n, opts=OPTS[backend], args={}, segs=segs, succ=[False] * nseg, run_kw=kw,
-                prog_shots=[rng.choice([None, None, 2, 3]) for _ in range(nseg)], noncomparable=True)
+                prog_shots=[rng.choice([None, 2, 3, 4]) for _ in range(nseg)], noncomparable=True)
 
 
 def gen_history(rng, backend):
@@ -433,6 +433,8 @@ def one_session(ctx, sf, spec, reqs, pending, kinds=("list", "seq", "cat", "rese
     backend = spec["backend"]
     k = len(spec["segs"])
     sc = scripts(er.run_order(spec))
+    if spec.get("script"):
+        sc, kinds = {"custom": spec["script"]}, ("custom",)
     coherent = er.coherent(spec)
     allops = [o for j in er.run_order(spec) for o in spec["segs"][j]]
     results = {}
@@ -516,8 +518,42 @@ def one_session(ctx, sf, spec, reqs, pending, kinds=("list", "seq", "cat", "rese
         if all(fol) and err == "RuntimeError":
             ctx.fail(f"can-follow-rejected:{pat}:{backend}", f"{backend}: pattern '{pat}' rejected a program whose initial register "
                      "equals its predecessor's final register", rp)
+    if spec.get("expect_last_error"):
+        # spec-level truth: the last run reads a measured value no program of THIS engine session has produced
+        r = results.get("custom")
+        ctx.oracle_cases += 1
+        if r is not None and r["err"] != spec["expect_last_error"]:
+            ctx.fail("stale-measured-value", f"{backend}: a program read q[m].par although mode m was not measured since the engine "
+                     f"was created (value left in its RegRef by an earlier engine): expected {spec['expect_last_error']}, got "
+                     f"{r['err'] or 'a successful run'}", rp)
+        return
     if spec.get("noncomparable"):
         ctx.tally("oracle:run-option session (patterns differ by design)")
+        # documented rule: keyword > run_options of the programs (later programs of a list overwrite earlier ones) > 1;
+        # a state object for modes=None (all modes) or a non-empty selection (exactly those modes, in that order)
+        kwo, ps, order = spec.get("run_kw") or {}, spec.get("prog_shots") or [None] * k, er.run_order(spec)
+        def eff(ids):
+            v = kwo.get("shots")
+            for i in ids:
+                v = v if kwo.get("shots") is not None else (ps[i] if ps[i] is not None else v)
+            return 1 if v is None else v
+        for pat, groups in (("list", [order]), ("seq", [[i] for i in order])):
+            r = results.get(pat)
+            if r is None:
+                continue
+            for ids, step in zip(groups, r["steps"]):
+                want = eff(ids)
+                got = {c["shots"] for c in step.get("calls", []) if c["name"].startswith("measure_")}
+                ctx.oracle_cases += 1
+                if got - {want}:
+                    ctx.fail("run-option-shots", f"{backend}: run of programs {ids} ({pat}) measured with shots={sorted(got)}; "
+                             f"keyword {kwo.get('shots')}, program run_options {ps} give {want}", rp)
+                if "err" not in step:
+                    st = [c for c in step["calls"] if c["name"] == "state"]
+                    m = kwo.get("modes")
+                    want_state = [] if m == [] else [list(m) if m is not None else []]
+                    if [c["modes"] for c in st] != want_state:
+                        ctx.fail("run-option-modes", f"{backend}: run(modes={m}) queried the state for {[c['modes'] for c in st]}", rp)
         return
     # ---- (C) the three patterns (+ reset, re-run) end in the same state
     if unmeasured_read(spec):
